@@ -263,6 +263,19 @@ def build_unit(builder, findings):
 
 
 def process_unit(u, findings, workdir, seed, rlimit_mult=1, variants=('main', 'strict', 'canary')):
+    try:
+        return _process_unit(u, findings, workdir, seed, rlimit_mult, variants)
+    except ExtractError as e:
+        ur = UnitRun(u)
+        ur.undecided.append('extraction: %s' % e)
+        return ur
+    except Exception as e:  # a runner fault is never a verdict
+        ur = UnitRun(u)
+        ur.undecided.append('runner fault: %r' % e)
+        return ur
+
+
+def _process_unit(u, findings, workdir, seed, rlimit_mult=1, variants=('main', 'strict', 'canary')):
     ur = UnitRun(u)
     bad = u.fidelity()
     if bad:
